@@ -55,9 +55,13 @@ type parkLogger struct {
 	hclog.Logger
 	w         *worker
 	stopDelay time.Duration // fixed before the server starts: read without any synchronisation
+	noPark    bool          // fixed before the server starts: the logger never takes a lock
 }
 
 func (p *parkLogger) maybePark(msg string) {
+	if p.noPark {
+		return
+	}
 	if p.stopDelay > 0 && strings.Contains(msg, "waiting on connections to close") {
 		// Stop dawdles between its interrupt pass and connWg.Wait.  A delay, not a rendez-vous,
 		// and no lock on this path: nothing here may order Stop after another goroutine, or
@@ -232,6 +236,18 @@ func cmdWorker(args []string) int {
 				err := w.srv.Stop()
 				w.ev("stop-return %d %v", k, err == nil)
 			}()
+		case "stopafter":
+			// Stop from a goroutine that is started now and sleeps: nothing the server's goroutines
+			// do in the meantime is ordered before its Stop (it reports only after Stop returned)
+			ms, _ := strconv.Atoi(f[1])
+			k := atomic.AddInt64(&w.stops, 1)
+			go func() {
+				time.Sleep(time.Duration(ms) * time.Millisecond)
+				err := w.srv.Stop()
+				w.ev("stop-call %d", k)
+				w.ev("stop-return %d %v", k, err == nil)
+			}()
+			w.ev("stopafter armed")
 		case "run":
 			w.callRun()
 		case "ready":
@@ -325,7 +341,7 @@ func (w *worker) start(opts []string) {
 	}
 	var sopts []gldap.Option
 	sd, _ := strconv.Atoi(o["stopdelay"])
-	sopts = append(sopts, gldap.WithLogger(&parkLogger{Logger: hclog.New(&hclog.LoggerOptions{Level: hclog.Off}), w: w, stopDelay: time.Duration(sd) * time.Millisecond}))
+	sopts = append(sopts, gldap.WithLogger(&parkLogger{Logger: hclog.New(&hclog.LoggerOptions{Level: hclog.Off}), w: w, stopDelay: time.Duration(sd) * time.Millisecond, noPark: o["nopark"] == "1"}))
 	if o["recovery"] == "0" {
 		sopts = append(sopts, gldap.WithDisablePanicRecovery())
 	}
